@@ -249,7 +249,7 @@ def run(tier, seed, pid=PID):
                     t_id = tids.setdefault(tgt, len(tids) + 1)
                     steps.append("%d:%s" % (t_id, cwd_class(tgt, src, cids)))      # resolution from the directory that holds the link
                 xargs = ["-X"] if i % 3 == 0 else []
-                if i % 3 == 0:
+                if i % 3 == 0 and os.path.isfile(src + "/t1.txt"):
                     os.setxattr(src + "/t1.txt", "user.note", b"hello")
                 b_src, b_out = world.snapshot(src), world.snapshot(out)
                 if pid == "C02" and k >= 1:
@@ -260,6 +260,8 @@ def run(tier, seed, pid=PID):
                 if ch:
                     wrote_outside = True
                     viol.append({"world": i, "mode": mode, "kind": kind, "prior": prior, "run": k + 1, "why": "the run modified %r" % ch[:4], "prop": "C02"})
+                    if any(w_ == "src" for w_, _p in ch):
+                        break                  # the world's source is no longer what the history says: nothing further to learn from it
                 outs.append(dclass(dpath, tids, cids))
                 if pid == "C02":
                     continue
